@@ -40,15 +40,24 @@ ASSUMPTIONS = [
     "contexts handed over after the exit callback has drained the queue stay queued (owner's responsibility): "
     "handover_once covers every context enqueued before the exit callback takes the handle's mutex",
     "peers of handed-over sockets are silent in the scenarios: read/close dispatch belongs to C13/C15",
+    "API hazard (observed by the C15 driver, consistent with the model: callbacks run inside on_wake's locked segment): "
+    "calling muggle_socket_evloop_add_ctx from inside cb_add_ctx (or any callback invoked by on_wake's queue loop) "
+    "self-deadlocks, because on_wake holds handle->mtx around the callback; callbacks must not hand contexts over - "
+    "usage restriction, not patched",
+    "fairness theorems assume a well-formed configuration (the loop thread is one of the threads: c_loop < c_n) and both "
+    "repairs applied",
 ]
 EVIDENCE_NOTES = [
-    "exit_returns is mechanised as invariant + progress + variant (DESIGN.md 6/C14): invariant (EXIT/WAKE pending => a "
-    "writer is about to signal, or the loop is past a poll return in this iteration, or the signal is readable), 'a poll "
-    "attempt with an exit pending and no writer in flight never finds nothing', 'the exit test after any wake-up with an "
-    "exit pending leaves the loop', 'a blocked loop step waits for a mutex whose holder is enabled', and the variant "
-    "exit_returns_variant (every loop-thread step decreases rank, other threads raise it by at most 2 per enqueue); the "
-    "closing temporal step (fair schedule + finite scripts => run() returns) is the standard argument and is not mechanised",
+    "exit_returns is mechanised in full: safety (invariant 'EXIT/WAKE pending => a writer is about to signal, or the loop "
+    "is past a poll return, or the signal is readable'; poll never finds nothing with an exit pending; the exit test "
+    "leaves; never stuck except on a mutex whose holder is enabled; local variant) and liveness exit_returns_fair: under "
+    "every fair schedule (rounds scheduling each thread at least once) more than G rounds after an exit request run() "
+    "has returned after the clear and exit callbacks; wake_served_fair is the analogous liveness statement for "
+    "wake_not_lost.  G is an explicit measure that no step increases and every enabled step except the loop's re-poll "
+    "on an unready signal strictly decreases (C14/ProofsFair.v); scripts are finite lists",
     "to_exit / tid are plain ints accessed by several threads (C11 data race); modelled SC and flagged",
+    "API hazard: muggle_socket_evloop_add_ctx called from inside cb_add_ctx self-deadlocks (on_wake holds handle->mtx "
+    "around the callback); listed as a usage restriction in the assumptions, not patched",
     "a wake-up request that completes after the loop's last signal clear-up but before its exit test is not "
     "followed by a wake callback (the loop is leaving): wake_not_lost is stated for a loop that is still in its body",
     "ref-count of a handed-over context is modelled as the single CAS 1 -> 0 of its release (justified by handover_once: "
